@@ -356,7 +356,17 @@ impl Context {
                 Phase::Drop => unreachable!(),
             }
 
-            if run_until == RunUntil::PayDebt && !(cx.metrics.allocation_debt() > 0.0) {
+            // Never stop between sweeping the last object and noticing that the sweep is over. A
+            // sweep that has just freed every allocation reads as zero debt (an empty arena has
+            // none), and stopping here would leave the arena in `Phase::Sweep` with nothing left to
+            // sweep: a stop-the-world `collect_debt` / `cycle_debt` would return before the
+            // collector is asleep again, and stay there until something is allocated.
+            let sweep_exhausted = cx.phase == Phase::Sweep && cx.sweep.is_none();
+
+            if run_until == RunUntil::PayDebt
+                && !sweep_exhausted
+                && !(cx.metrics.allocation_debt() > 0.0)
+            {
                 break;
             }
         }
